@@ -66,8 +66,28 @@ def _modalias(mod):
     return "m_" + mod.replace(".", "_")
 
 
+def effective(spec, variant):
+    """the program of a variant in which some functions are deleted ('drop:<fn>' edit points): the functions are gone and the
+    items that called them are constants"""
+    dropped = {k[5:] for k, v in (variant or {}).items() if k.startswith("drop:") and v}
+    if not dropped:
+        return spec
+    sp = dict(spec)
+    sp["funcs"] = []
+    for f in spec["funcs"]:
+        if f["name"] in dropped:
+            continue
+        f = dict(f)
+        for part in ("body", "init", "clsattr"):
+            if part in f:
+                f[part] = [({"k": "const", "expr": "'gone'"} if (it.get("fn") in dropped or it.get("cls") in dropped) else it) for it in f[part]]
+        sp["funcs"].append(f)
+    return sp
+
+
 class Renderer:
     def __init__(self, spec, variant, pkg, xpkg):
+        spec = effective(spec, variant)
         self.spec, self.variant, self.pkg, self.xpkg = spec, variant, pkg, xpkg
         self.ext_names = {f["name"] for f in spec.get("ext", {}).get("funcs", [])} | {v["name"] for v in spec.get("ext", {}).get("vars", [])}
 
@@ -409,6 +429,7 @@ class Cone:
     """Cone fingerprints computed from the spec and the rendered text only (never from dds)."""
 
     def __init__(self, spec, variant, served=None, pkg="PKG"):
+        spec = effective(spec, variant)
         self.spec, self.variant = spec, variant
         self.r = Renderer(spec, variant, pkg, "XPKG")  # the text of a function may spell the package name (import p.m; p.m.f())
         self.served = served or {}
@@ -541,6 +562,7 @@ class Cone:
 def node_cones(spec, variant, entry, served=None, pkg="PKG"):
     """{fn name: set of cone fingerprints of the kept nodes using that function} reachable from the entry."""
     c = Cone(spec, variant, served, pkg)
+    spec = c.spec
     out = {}
 
     def walk(fname, binding, stack):
